@@ -290,7 +290,10 @@ def run(ck: Check) -> None:
         if "exc" in r:
             ditems += ["false", "false"]
             continue
-        ditems.append(f"andb {coq_bool(r['ok_p'] and r['ok_g'])} (agree_distributor {sh_thr_mg(w)} {zs(r['merged'])} {r['nb']} {views(r['pb'])} {views(r['gb'])})")
+        if r["gb"] == r["pb"]:    # same text: bind it once (halves the size of the case files)
+            ditems.append(f"andb {coq_bool(r['ok_p'] and r['ok_g'])} (let pb := {views(r['pb'])} in agree_distributor {sh_thr_mg(w)} {zs(r['merged'])} {r['nb']} pb pb)")
+        else:
+            ditems.append(f"andb {coq_bool(r['ok_p'] and r['ok_g'])} (agree_distributor {sh_thr_mg(w)} {zs(r['merged'])} {r['nb']} {views(r['pb'])} {views(r['gb'])})")
         ditems.append(f"andb {coq_bool(r['ok_u'])} (agree_update {sh_thr_mg(w)} {zs(r['bases'])} {zs(r['storage'])})")
     mitems = ["false" if "exc" in r else f"agree_merge {zs(sh)} {thr} {zs(r['out'])}" for (sh, thr), r in zip(mwork, mres)]
     sitems = ["false" if "exc" in r else f"andb {coq_bool(r['ok'])} (agree_split {zs(sh)} {b} {views(r['views'])})" for (sh, b), r in zip(swork, sres)]
